@@ -63,7 +63,7 @@ CHECKS = {
    text='On success, failure and recovery paths, with copyable and move-only values: no library-made copy, no value consumed twice or handed over moved-from, every object destroyed exactly once.',
    note='observes only what the tracked types can see (values of trivially copyable types are not tracked)'),
  'C15': dict(level='exploration', design='DESIGN.md §6 C15',
-   technique=RM + 'ThreadSanitizer build plus result comparison against isolated results, byte image of parser objects before/after, shuffled single-threaded history; overlap of calls measured from timestamps',
+   technique=RM + 'ThreadSanitizer build plus result comparison against isolated results (each computed on a copy of a never-used parser object), byte image of parser objects before the first and after the last call, shuffled single-threaded history, nested parses from inside functors, a second object of the same type with other functor state; overlap of calls measured from timestamps',
    text='4..32 threads share constexpr and run-time-constructed parser objects and mix parse / verbose parse / stream-less parse / write_diag_str on accepted, rejected and recovering inputs with injected yields. No race report, every result equal to the isolated one, objects bit-identical afterwards.',
    note='held on the schedules produced; the number of overlapping call pairs is reported as evidence'),
  'C16': dict(level='exploration', design='DESIGN.md §6 C16',
